@@ -10,7 +10,7 @@ while read sha prop; do
     echo "skip $sha ($prop): reverse patch no longer applies (later fix touches the same lines)"; rm selftest/$prop/revert-$sha.diff
   fi
 done <<'LIST'
-58292720 C07
+# 58292720 C07  (the plain revert does not compile: later fixes call predictor_geometry; see selftest/C07/violate-tiff-predictor-arm-removed.sed)
 c9874a77 C01
 40520f0b C01
 90fbb9ab C01
